@@ -8,20 +8,20 @@ From ZV Require Import Generated.SandboxTables Model.Sandbox Proofs.SandboxRefut
 Import ListNotations.
 Open Scope string_scope.
 
-Theorem special_forms_pure_refuted : exists n f, In (n, f) special_forms /\ effect_of f <> [].
+Theorem special_forms_pure_refuted : exists n f, In (n, f) special_forms /\ effect_of Bare f <> [].
 Proof. exact SandboxRefuted.special_forms_pure_refuted. Qed.
 Print Assumptions special_forms_pure_refuted.
 
 Theorem sandbox_tables_pure_refuted_sys : exists n k f,
-  In (n, k, f) (bindings Std) /\ k <> KValue /\ effect_of f = [Eprocess].
+  In (n, k, f) (bindings Std) /\ k <> KValue /\ effect_of Std f = [Eprocess].
 Proof. exact SandboxRefuted.sandbox_tables_pure_refuted_sys. Qed.
 Print Assumptions sandbox_tables_pure_refuted_sys.
 
 Theorem sandbox_tables_pure_refuted_import : exists n k f,
-  In (n, k, f) (bindings Std) /\ k <> KValue /\ effect_of f = [Efileread].
+  In (n, k, f) (bindings Std) /\ k <> KValue /\ effect_of Std f = [Efileread].
 Proof. exact SandboxRefuted.sandbox_tables_pure_refuted_import. Qed.
 Print Assumptions sandbox_tables_pure_refuted_import.
 
-Theorem sandbox_no_effect_refuted : exists c p, sandboxed c = true /\ effects_of (run_abs c p) <> [].
+Theorem sandbox_no_effect_refuted : exists c p, sandboxed c = true /\ effects_of c (run_abs c p) <> [].
 Proof. exact SandboxRefuted.sandbox_no_effect_refuted. Qed.
 Print Assumptions sandbox_no_effect_refuted.
